@@ -69,10 +69,14 @@ def wire_len(kind, frs):
 def vectors(ctx, streams):
     rng = ctx.rng
     V = []
-    for kind, frs, n in streams:
+    for idx, (kind, frs, n) in enumerate(streams):
         cutsets = [[c] for c in range(1, n)]
         pairs = list(itertools.combinations(range(1, n), 2))
-        cutsets += pairs if not ctx.quick else rng.sample(pairs, min(len(pairs), 25))
+        # every pair of cuts for a rotating subset of the streams (thorough: every 12th stream), a seeded sample elsewhere
+        if not ctx.quick and idx % 12 == ctx.seed % 12:
+            cutsets += pairs
+        else:
+            cutsets += rng.sample(pairs, min(len(pairs), ctx.pick(25, 150)))
         cutsets.append(list(range(1, n)))                         # 1-byte pieces
         for _ in range(ctx.pick(4, 30)):
             k = rng.randint(3, max(3, n // 3))
